@@ -25,6 +25,7 @@ class C17(Prop):
         "NV.C17.relocate_offsets_preserved",
         "NV.C17.switch_tables_sorted_after_patch",
         "NV.C17.patch_roundtrip",
+        "NV.C17.all_string_switches_patched",
     ]
     witness_theorems = [
         "NV.C17.old_type_start_loop_wrong",
@@ -32,6 +33,7 @@ class C17(Prop):
         "NV.C17.old_patch_offset_negative",
         "NV.C17.old_config_id_blind",
         "NV.C17.old_indirect_inherit_not_checked",
+        "NV.C17.conditional_patch_list_misses_switch",
     ]
     consts = [("switchCaseSize", "SWITCH_CASE_SIZE"), ("fSwitch", "F_SWITCH"), ("nameInherited", "NAME_INHERITED"),
               ("indexStartNone", "INDEX_START_NONE"), ("sizeofProgram", "sizeof(program_t)"),
@@ -101,6 +103,14 @@ class C17(Prop):
         need_lb("name", r"strcmp\s*\(name,\s*buf\)\s*!=\s*0")
         need_lb("sort", r"sort_function_table\s*\(p\)\s*;")
         need_lb("patch_in", r"patch_in\s*\(p,")
+        # the patch list: recorded for every string switch, under no other condition
+        ic = open(os.path.join(E.REPO, "lib/lpc/program/icode.c")).read()
+        m = re.search(r"if\s*\(([^{};]*)\)\s*\{\s*short\s+sw\s*=\s*\(short\)\s*\(addr\s*-\s*2\);\s*add_to_mem_block\s*\(A_PATCH,", ic, re.S)
+        if not m or re.sub(r"\s+", " ", m.group(1).strip()) != "expr->kind == NODE_SWITCH_STRINGS":
+            raise X.TieBroken("icode.c:A_PATCH", "the patch list is no longer recorded under exactly `expr->kind == NODE_SWITCH_STRINGS` "
+                              "(found: %s)" % (m.group(1).strip() if m else "site not found"))
+        if len(re.findall(r"add_to_mem_block\s*\(A_PATCH", ic)) != 1:
+            raise X.TieBroken("icode.c:A_PATCH", "expected exactly one place that appends to A_PATCH")
         return "\n".join([
             "/-- C: `static uint32_t driver_id` in lib/lpc/program/binaries.c -/",
             "def driverId : Nat := %d" % int(drv, 0),
@@ -155,9 +165,9 @@ class C17(Prop):
         n = 60 if tier == "quick" else 600
         cases = []
         for i in range(n):
-            c = G.sys_case(E.Rng(9000 + i % 7), "x%d" % i, nprog=2, script=[])
+            c = G.sys_case(E.Rng(9000 + i % 7), "x%d" % i, nprog=2, script=[], mode="reloadp")
             lines = [l for l in c.lines if not l.startswith("mtime /simul_efun.c 500")]
-            reload_line = [l for l in lines if l.startswith("reload ")][-1]
+            reload_line = [l for l in lines if l.startswith(("reload ", "reloadp "))][-1]
             progs = [l.split()[1] for l in lines if l.startswith("prog ") and "save=1" in l]
             if not progs:
                 continue
